@@ -571,7 +571,16 @@ impl Locale {
             if let Some((base_key, rule_type, plural_form)) = Self::is_possible_plural(&key, &value)
             {
                 let map = possible_plurals.entry(base_key.to_owned()).or_default();
-                map.insert(plural_form, (key, rule_type, value));
+                if let Some((replaced_key, _, _)) = map.insert(plural_form, (key, rule_type, value))
+                {
+                    // same base and same form: one is cardinal and the other ordinal
+                    key_path.push_key(replaced_key);
+                    return Err(Error::ConflictingPluralRuleType {
+                        locale: locale.clone(),
+                        key_path: std::mem::take(key_path),
+                    }
+                    .into());
+                }
             } else {
                 self.keys.insert(key, value);
             }
